@@ -28,8 +28,9 @@ package main
 // it is judged; relation fields the second load did not ask for are not judged; scalar columns are not judged at all (C15's
 // F7d: stale NULL columns of a reused struct); a []map destination is appended to (only the appended part is judged);
 // has-one with several visible candidates: any one of them.
-// Tie: for every judged preloaded relation the Lean model `Gorm.preloadAssign` (Model/PreloadAssign.lean: reset step +
-// assignment loop) is run on (relation kind, old field content, fetched rows) and compared with the real field.
+// Tie (`dest.tie`): for every judged relation the Lean model (Model/PreloadAssign.lean: `preloadField` = clean-up step of the
+// regenerated arms + assignment loop; `joinsAssign` for joined relations) is run on (destination kind, relation kind, old
+// field content, visible rows) and compared with the real field.
 
 import (
 	"encoding/json"
@@ -878,6 +879,8 @@ func c08DRootVisible(db *gorm.DB, root *c08DTab, id uint, l c08DLoad) bool {
 
 type c08DTieItem struct {
 	Path    string `json:"path"`
+	Via     string `json:"via"`  // preload joins
+	Dest    string `json:"dest"` // struct slice: the `case` of preload()'s `switch reflectValue.Kind()`
 	Kind    string `json:"kind"`
 	Old     []uint `json:"old"`
 	Fetched []uint `json:"fetched"`
@@ -943,6 +946,11 @@ func (j *c08DJudge) rec(v reflect.Value, tab *c08DTab, kids map[string]*c08DNode
 		if len(old) > 0 && !sameUints(old, exp) {
 			j.r.H("dest.stale-chance", fmt.Sprintf("%s via %s: old content differs from the visible rows (now %d visible)", n.rel.Kind, via, len(exp)))
 		}
+		dk := "slice"
+		if !fresh && j.reused && path == "" {
+			dk = "struct"
+		}
+		j.ties = append(j.ties, c08DTieItem{Path: path + name, Via: via, Dest: dk, Kind: n.rel.Kind, Old: old, Fetched: exp, Got: got})
 		if !ok {
 			if n.join && len(exp) == 0 && len(old) > 0 && sameUints(got, old) && listed("F34-C08-joins-keep-stale-relation") {
 				j.r.KnownFinding("F34-C08-joins-keep-stale-relation", fmt.Sprintf("%s reloaded in place with Joins(%q): the joined row is invisible now (all columns NULL), the relation field still holds row %v of the earlier load", tab.Name, path+name, got))
@@ -950,9 +958,6 @@ func (j *c08DJudge) rec(v reflect.Value, tab *c08DTab, kids map[string]*c08DNode
 			}
 			j.bad(fmt.Sprintf("%s %d reloaded into a used destination: relation %s (%s, %s, loaded via %s) must hold exactly the visible rows; before the reload it held %v", tab.Name, id, path+name, n.rel.Kind, shape, via, old), got, exp)
 			continue
-		}
-		if !n.join {
-			j.ties = append(j.ties, c08DTieItem{Path: path + name, Kind: n.rel.Kind, Old: old, Fetched: exp, Got: got})
 		}
 		// below: a preloaded relation is re-created (fresh); a joined POINTER relation is re-allocated, a joined VALUE relation
 		// is scanned into in place
@@ -1153,14 +1158,18 @@ func c08DWorld(r *Result, seed int64) {
 	c08DTie(r, seed, ties)
 }
 
-// tie: Lean Gorm.preloadAssign (Model/PreloadAssign.lean) on (kind, old content, fetched rows) vs the real field
+// tie: Lean PreloadAssign.preloadField / joinsAssign (Model/PreloadAssign.lean) on (kinds, old content, fetched rows) vs the real field
 func c08DTie(r *Result, seed int64, ties []c08DTieItem) {
 	if len(ties) == 0 {
 		return
 	}
 	ops := make([][]interface{}, 0, len(ties))
 	for _, t := range ties {
-		ops = append(ops, []interface{}{"c08.preloadAssign", t.Kind, t.Old, t.Fetched})
+		if t.Via == "joins" {
+			ops = append(ops, []interface{}{"c08.joinsAssign", t.Old, t.Fetched})
+		} else {
+			ops = append(ops, []interface{}{"c08.preloadAssign", t.Dest, t.Kind, t.Old, t.Fetched})
+		}
 	}
 	res, err := AskLean(ops)
 	if err != nil || len(res) != len(ties) {
@@ -1174,14 +1183,15 @@ func c08DTie(r *Result, seed int64, ties []c08DTieItem) {
 			return
 		}
 		single := t.Kind == "hasone" || t.Kind == "belongsto"
-		r.Case("dest.tie", fmt.Sprint(t.Kind, t.Old, t.Fetched), len(t.Old) > 0)
-		r.H("dest.tie", fmt.Sprintf("%s old=%s fetched=%s", t.Kind, c08DBucket(len(t.Old)), c08DBucket(len(t.Fetched))))
+		r.CorrCompared++
+		r.Case("dest.tie", fmt.Sprint(t.Via, t.Dest, t.Kind, t.Old, t.Fetched), len(t.Old) > 0)
+		r.H("dest.tie", fmt.Sprintf("%s %s dest=%s old=%s fetched=%s", t.Via, t.Kind, t.Dest, c08DBucket(len(t.Old)), c08DBucket(len(t.Fetched))))
 		if single && len(t.Fetched) > 1 {
 			continue // which of several candidates a has-one shows depends on the row order of the child query
 		}
 		if !sameUints(c08DSorted(model), t.Got) {
 			r.Violate(Violation{Kind: "correspondence", Suite: "dest.tie", Input: map[string]interface{}{"seed": seed, "item": t}, Observed: t.Got, Expected: model,
-				Note: "relation field after the real preload vs Lean Gorm.preloadAssign (reset step + assignment loop)"})
+				Note: "relation field after the real load vs Lean PreloadAssign.preloadField over the regenerated clean-up arms (preload) / joinsAssign (joins)"})
 		}
 	}
 }
@@ -1196,8 +1206,44 @@ func c08DBucket(n int) string {
 	return "2+"
 }
 
+// the witness of finding F34 (known_findings.d/C08.json), re-confirmed on every run
+func c08ProbeF34(r *Result) {
+	db, _, sqlDB := OpenRec(&gorm.Config{NowFunc: fixedNowFunc})
+	defer sqlDB.Close()
+	c08DSeed(db, rand.New(rand.NewSource(5)))
+	for _, t := range []string{"d8_owners", "d8_firms"} {
+		c08DExec(db, "UPDATE "+t+" SET deleted_at = NULL")
+	}
+	c08DExec(db, "UPDATE d8_owners SET boss_id = 1, firm_id = 2 WHERE id = 2")
+	var o, fresh D8Owner
+	if err := db.Joins("Firm").Joins("Boss").Take(&o, 2).Error; err != nil || o.Firm.ID != 2 || o.Boss == nil {
+		r.Note("F34 probe: setup load failed: %v", err)
+		return
+	}
+	db.Delete(&D8Firm{}, 2)
+	db.Delete(&D8Owner{}, 1)
+	err1 := db.Joins("Firm").Joins("Boss").Take(&o, 2).Error
+	err2 := db.Joins("Firm").Joins("Boss").Take(&fresh, 2).Error
+	r.Case("dest", "F34-probe", true)
+	if err1 != nil || err2 != nil || fresh.Firm.ID != 0 || fresh.Boss != nil {
+		r.Violate(Violation{Kind: "e2e", Suite: "dest", Input: map[string]interface{}{"probe": "F34"}, Observed: fmt.Sprint(err1, err2, fresh.Firm.ID, fresh.Boss != nil),
+			Expected: "a fresh destination shows neither the soft-deleted firm nor the soft-deleted boss", Note: "F34 probe, fresh destination"})
+		return
+	}
+	if o.Firm.ID != 0 || o.Boss != nil {
+		if listed("F34-C08-joins-keep-stale-relation") {
+			r.KnownFinding("F34-C08-joins-keep-stale-relation", fmt.Sprintf("witness: owner 2 re-loaded in place with Joins(Firm).Joins(Boss) after both were soft-deleted still shows Firm.ID=%d, Boss set=%v (a fresh destination shows neither)", o.Firm.ID, o.Boss != nil))
+		} else {
+			r.Violate(Violation{Kind: "e2e", Suite: "dest", Input: map[string]interface{}{"probe": "F34"}, Observed: fmt.Sprint(o.Firm.ID, o.Boss != nil), Expected: "0 false", Note: "F34 probe"})
+		}
+	} else {
+		r.Note("F34 probe: the witness no longer reproduces (Joins into a used struct drops the invisible relation)")
+	}
+}
+
 func init() {
 	register("C08", func(r *Result, rng *rand.Rand, tier string) {
+		c08ProbeF34(r)
 		n := map[string]int{"quick": 60, "thorough": 1500, "search": 600}[tier]
 		for i := 0; i < n && !expired(); i++ {
 			c08DWorld(r, rng.Int63())
@@ -1209,6 +1255,8 @@ func init() {
 		}
 		if json.Unmarshal(input, &c) == nil && c.Seed != 0 {
 			c08DWorld(r, c.Seed)
+		} else {
+			c08ProbeF34(r)
 		}
 	}
 	replayers["C08/dest.tie"] = replayers["C08/dest"]
